@@ -83,12 +83,18 @@ class NoneVal:
 
 class Obj:
     """Abstract dict object."""
+    _next = 0
 
     def __init__(self, prov: str, why: str, items: Optional[Dict[str, ast.expr]] = None, open_: bool = False):
         self.prov = prov        # fresh | memo | state
         self.why = why          # where the sharing comes from (text for messages)
         self.items: Dict[str, ast.expr] = dict(items or {})
         self.open = open_       # unknown further keys / unknown values
+        self.container: Optional[str] = None   # for prov == 'state': the container it was read from and the key expression
+        self.key: Optional[ast.expr] = None
+        self.memo_atoms: Optional[List[str]] = None   # for prov == 'memo': what identifies the retained object (names / self.<attr> of the memo key; 'self' = the object)
+        Obj._next += 1
+        self.oid = Obj._next    # survives deepcopy (a fork of the state keeps object identities apart by oid)
 
     def clone_fresh(self) -> 'Obj':
         return Obj('fresh', '', {k: copy.deepcopy(v) for k, v in self.items.items()}, self.open)
@@ -103,6 +109,7 @@ class State:
         self.events: List[dict] = []
         self.conds: List[str] = []
         self.sinks: List[Tuple[str, object]] = []   # (list name, appended value)
+        self.stack: List[Dict[str, object]] = []    # environments of the callers (a callee runs on the same state, so aliasing and events carry over)
 
     def fork(self) -> 'State':
         return copy.deepcopy(self)
@@ -111,10 +118,12 @@ class State:
 class Path:
     def __init__(self, result: object, st: State):
         self.result = result   # Obj | NoneVal | ast.expr
-        self.events = st.events
-        self.conds = st.conds
-        self.sinks = st.sinks
-        self.env = st.env
+        self.state = st
+
+    events = property(lambda self: self.state.events)
+    conds = property(lambda self: self.state.conds)
+    sinks = property(lambda self: self.state.sinks)
+    env = property(lambda self: self.state.env)
 
 
 class _Frame:
@@ -131,6 +140,29 @@ def self_attr(e: ast.AST) -> Optional[str]:
     if isinstance(e, ast.Attribute) and isinstance(e.value, ast.Name) and e.value.id == 'self':
         return e.attr
     return None
+
+
+def key_atoms(k: ast.AST) -> List[str]:
+    """Names and self.<attr> chains a memo key is built from ('self' only when the object itself is part of the key)."""
+    out: Set[str] = set()
+
+    def go(n: ast.AST) -> None:
+        if isinstance(n, ast.Attribute):
+            base = n
+            while isinstance(base, ast.Attribute):
+                base = base.value
+            if isinstance(base, ast.Name):
+                out.add(pf.nsrc(n))
+                if base.id == 'self' and isinstance(n.value, ast.Attribute):
+                    out.add(f'self.{pf.nsrc(n).split(".")[1]}')
+                return
+        if isinstance(n, ast.Name):
+            out.add(n.id)
+            return
+        for c in ast.iter_child_nodes(n):
+            go(c)
+    go(k)
+    return sorted(out)
 
 
 def state_read(e: ast.AST, local_names: Set[str]) -> Optional[str]:
@@ -168,6 +200,7 @@ class DictEval:
         self.external_call = external_call
         self.self_reads: Set[str] = set()
         self.visited: List[str] = []
+        self.visited_fns: List[Tuple[str, pf.FuncDef, pf.Module]] = []
         self.memoised: Dict[str, str] = {}
 
     # -- resolution -----------------------------------------------------------------
@@ -194,6 +227,22 @@ class DictEval:
             return cn, fn, m
         return None
 
+    def class_level(self, attr: str) -> bool:
+        """attr is bound in a class body of the MRO (shared by every instance) and never assigned through self in an __init__ of the MRO."""
+        bound = False
+        for cn in self.order:
+            c = self.classes[cn][1]
+            for st in c.body:
+                tg = st.targets[0] if isinstance(st, ast.Assign) and len(st.targets) == 1 else (st.target if isinstance(st, ast.AnnAssign) and st.value is not None else None)
+                if isinstance(tg, ast.Name) and tg.id == attr:
+                    bound = True
+            init = methods(c).get('__init__')
+            if init is not None:
+                for n in ast.walk(init):
+                    if isinstance(n, ast.Attribute) and isinstance(n.ctx, ast.Store) and self_attr(n) == attr:
+                        return False
+        return bound
+
     # -- entry ----------------------------------------------------------------------
     def run(self, name: str) -> List[Path]:
         r = self.resolve(name)
@@ -201,7 +250,7 @@ class DictEval:
             raise AnalysisError(f'{self.cls_name}: no concrete {name} in its MRO')
         owner, fn, m = r
         params = [a.arg for a in fn.args.args]
-        bound = {p: ast.Name(id=p, ctx=ast.Load()) for p in params[1:]}
+        bound: Dict[str, object] = {p: ast.Name(id=p, ctx=ast.Load()) for p in params[1:]}
         return self._invoke(owner, fn, m, bound, State(), self.max_depth)
 
     def run_block(self, owner: str, fn: pf.FuncDef, m: pf.Module, stmts: Sequence[ast.stmt], env: Dict[str, object]) -> Tuple[List[State], List[Path]]:
@@ -212,7 +261,8 @@ class DictEval:
         out = self._block(list(stmts), [st], fr)
         return out, fr.finished
 
-    def _invoke(self, owner: str, fn: pf.FuncDef, m: pf.Module, bound: Dict[str, ast.expr], st0: State, depth: int) -> List[Path]:
+    def _invoke(self, owner: str, fn: pf.FuncDef, m: pf.Module, bound: Dict[str, object], st: State, depth: int) -> List[Path]:
+        """Run fn on `st` (consumed): the caller's environment is pushed on st.stack and is on top of the stack of every returned path's state."""
         if depth <= 0:
             raise AnalysisError(f'{m.rel}::{owner}.{fn.name}: call chain too deep')
         if isinstance(fn, ast.AsyncFunctionDef) or fn.args.vararg or fn.args.kwarg or fn.args.posonlyargs:
@@ -223,15 +273,14 @@ class DictEval:
         tag = f'{owner}.{fn.name}'
         if tag not in self.visited:
             self.visited.append(tag)
+            self.visited_fns.append((owner, fn, m))
         if kind == 'memo':
             self.memoised[tag] = text or ''
         self._note_self_reads(fn)
-        st = State()
-        st.events = st0.events
-        st.conds = st0.conds
+        st.stack.append(st.env)
         st.env = dict(bound)
         fr = _Frame(owner, fn, m, depth)
-        fall = self._block(fn.body, [st], fr)
+        fall = self._block(comprehend_loops(fn.body), [st], fr)
         for s in fall:
             fr.finished.append(Path(NoneVal(), s))
         if len(fr.finished) > self.MAX_PATHS:
@@ -240,6 +289,7 @@ class DictEval:
             for p in fr.finished:
                 if isinstance(p.result, Obj):
                     p.result.prov = 'memo'
+                    p.result.memo_atoms = sorted({'self'} | {a for v in bound.values() if isinstance(v, ast.AST) for a in key_atoms(v)})
                     p.result.why = f'{owner}.{fn.name} is memoised with `@{text}`, so every call with the same arguments returns the same dict object'
         return fr.finished
 
@@ -273,7 +323,9 @@ class DictEval:
                     k = pf.const_str(node.slice)
                     if isinstance(v, Obj) and k is not None:
                         if k in v.items:
-                            return copy.deepcopy(v.items[k])
+                            r = copy.deepcopy(v.items[k])
+                            r._c13_src = (v.oid, k)   # type: ignore[attr-defined]  # this sub-expression is the value the dict held under k
+                            return r
                         if not v.open:
                             raise AnalysisError(f"{fr.where}: `{pf.nsrc(node)}` reads a key the dict does not have ({v.show()})")
                         return node
@@ -287,8 +339,21 @@ class DictEval:
 
             def visit_Lambda(self, node):
                 return node
+
+            def visit_Call(self, node: ast.Call):
+                # a helper method / module function that computes a scalar on a single path: replaced by what it returns
+                if not self.hidden:
+                    mc = ev._method_call(node, fr)
+                    if mc is not None and fr.depth > 1:
+                        try:
+                            n_ev = len(st.events)
+                            paths = ev._call(mc, st, fr)
+                            if len(paths) == 1 and isinstance(paths[0].result, ast.AST) and len(paths[0].events) == n_ev:
+                                return paths[0].result
+                        except AnalysisError:
+                            pass
+                return self.generic_visit(node)
         out = T(set()).visit(copy.deepcopy(e))
-        del ev
         return out
 
     def _obj_of(self, e: ast.AST, st: State) -> Optional[Obj]:
@@ -311,7 +376,38 @@ class DictEval:
         if allow_state:
             sr = state_read(e, self._locals(st, fr))
             if sr is not None:
-                return Obj('state', f'it is read from `{short(pf.nsrc(e), 50)}`, which outlives the call', {}, True)
+                o = Obj('state', f'it is read from `{short(pf.nsrc(e), 50)}`, which outlives the call', {}, True)
+                if isinstance(e, ast.Subscript):
+                    o.container, o.key = pf.nsrc(e.value), self.subst(e.slice, st, fr)
+                elif isinstance(e, ast.Call) and isinstance(e.func, ast.Attribute) and e.args:
+                    o.container, o.key = pf.nsrc(e.func.value), self.subst(e.args[0], st, fr)
+                else:
+                    o.container = pf.nsrc(e)
+                # what identifies the stored object: the instance (unless the attribute lives on the class) and the key it is looked up under
+                ident: Set[str] = set()
+                if sr.startswith('self.') and not self.class_level(sr[5:]):
+                    ident.add('self')
+                if o.key is not None:
+                    ident |= set(key_atoms(o.key))
+                o.memo_atoms = sorted(ident)
+                if sr.startswith('self.') and self.class_level(sr[5:]):
+                    o.why += f' ({sr} is a class attribute: one object for every instance)'
+                return o
+        return None
+
+    def _dict_operand(self, e: ast.AST, st: State, fr: _Frame, allow_state: bool = True) -> Optional[Obj]:
+        """The dict `e` denotes where it is only read ({**e}, dict(e), e | x): an object, a construction, or a call of a helper / super() method that returns one
+        dict on its only path without side effects."""
+        o = self._as_dict(e, st, fr, allow_state) or self.fresh(e, st, fr)
+        if o is not None:
+            return o
+        mc = self._method_call(e, fr)
+        if mc is not None:
+            n_ev = len(st.events)
+            paths = self._call(mc, st, fr)
+            if len(paths) == 1 and isinstance(paths[0].result, Obj) and len(paths[0].events) == n_ev:
+                return paths[0].result
+            raise AnalysisError(f'{fr.where}: `{short(pf.nsrc(e), 50)}` does not return one dict on a single effect-free path (not a recognised shape)')
         return None
 
     def fresh(self, e: ast.AST, st: State, fr: _Frame) -> Optional[Obj]:
@@ -320,7 +416,7 @@ class DictEval:
             out = Obj('fresh', '')
             for k, v in zip(e.keys, e.values):
                 if k is None:
-                    src = self._as_dict(v, st, fr) or self.fresh(v, st, fr)
+                    src = self._dict_operand(v, st, fr)
                     if src is None:
                         raise AnalysisError(f'{fr.where}: `**{short(pf.nsrc(v), 40)}` is not a recognised dict')
                     out.items.update({kk: copy.deepcopy(vv) for kk, vv in src.items.items()})
@@ -338,13 +434,13 @@ class DictEval:
                 if len(e.args) > 1 or (e.args and name != 'dict'):
                     return None
                 if e.args:
-                    src = self._as_dict(e.args[0], st, fr) or self.fresh(e.args[0], st, fr)
+                    src = self._dict_operand(e.args[0], st, fr)
                     if src is None:
                         return None
                     out = src.clone_fresh()
                 for k in e.keywords:
                     if k.arg is None:
-                        src = self._as_dict(k.value, st, fr) or self.fresh(k.value, st, fr)
+                        src = self._dict_operand(k.value, st, fr)
                         if src is None:
                             return None
                         out.items.update({kk: copy.deepcopy(vv) for kk, vv in src.items.items()})
@@ -359,8 +455,8 @@ class DictEval:
                 src = self._as_dict(e.func.value, st, fr)
                 return src.clone_fresh() if src is not None else None
         if isinstance(e, ast.BinOp) and isinstance(e.op, ast.BitOr):
-            a = self._as_dict(e.left, st, fr) or self.fresh(e.left, st, fr)
-            b = self._as_dict(e.right, st, fr) or self.fresh(e.right, st, fr)
+            a = self._dict_operand(e.left, st, fr)
+            b = self._dict_operand(e.right, st, fr)
             if a is None or b is None:
                 return None
             out = a.clone_fresh()
@@ -375,58 +471,78 @@ class DictEval:
                 return src.clone_fresh() if src is not None else None
         return None
 
-    def _method_call(self, e: ast.AST, fr: _Frame) -> Optional[Tuple[str, Optional[str], Optional[str], ast.Call]]:
-        """(method, start_after, start_at, call) for super().m(...), super(C, self).m(...), Base.m(self, ...), self.m(...)"""
+    def _method_call(self, e: ast.AST, fr: _Frame) -> Optional[Tuple[str, Optional[str], Optional[str], ast.Call, Optional[pf.FuncDef]]]:
+        """(method, start_after, start_at, call, module function) for super().m(...), super(C, self).m(...), Base.m(self, ...), self.m(...), and f(...) for a
+        plain function f of the module being evaluated"""
+        if isinstance(e, ast.Call) and isinstance(e.func, ast.Name) and e.func.id not in self.typed_dicts and e.func.id not in self.classes:
+            try:
+                f = fr.m.func(e.func.id)
+            except Exception:  # noqa: BLE001
+                return None
+            return e.func.id, None, None, e, f
         if not (isinstance(e, ast.Call) and isinstance(e.func, ast.Attribute)):
             return None
         recv = e.func.value
         if isinstance(recv, ast.Call) and pf.dotted(recv.func) == 'super':
             if not recv.args:
-                return e.func.attr, fr.owner, None, e
+                return e.func.attr, fr.owner, None, e, None
             if len(recv.args) == 2 and isinstance(recv.args[0], ast.Name) and pf.nsrc(recv.args[1]) == 'self' and recv.args[0].id in self.classes:
-                return e.func.attr, recv.args[0].id, None, e
+                return e.func.attr, recv.args[0].id, None, e, None
             return None
         if isinstance(recv, ast.Name) and recv.id == 'self':
             if self.resolve(e.func.attr) is not None:
-                return e.func.attr, None, None, e
+                return e.func.attr, None, None, e, None
             return None
         if isinstance(recv, ast.Name) and recv.id in self.order and e.args and pf.nsrc(e.args[0]) == 'self':
-            return e.func.attr, None, recv.id, e
+            return e.func.attr, None, recv.id, e, None
         return None
 
-    def _call(self, mc: Tuple[str, Optional[str], Optional[str], ast.Call], st: State, fr: _Frame) -> List[Path]:
-        name, after, at, call = mc
-        r = self.resolve(name, start_after=after, start_at=at)
-        if r is None:
-            raise AnalysisError(f'{fr.where}: `{short(pf.nsrc(call), 50)}` resolves to no concrete method')
-        owner, fn, m = r
-        kind, _ = decorator_kind(fn)
-        if kind == 'static':
-            raise AnalysisError(f'{fr.where}: call of static method `{name}` is not a recognised shape')
-        params = [a.arg for a in fn.args.args][1:]
+    def _call(self, mc: Tuple[str, Optional[str], Optional[str], ast.Call, Optional[pf.FuncDef]], st: State, fr: _Frame) -> List[Path]:
+        """Evaluate the call on a fork of st; every returned path's state has the (forked) caller environment on top of its stack."""
+        name, after, at, call, modfn = mc
+        if modfn is not None:
+            owner, fn, m = '<module>', modfn, fr.m
+            if decorator_kind(fn)[0] == 'unknown':
+                raise AnalysisError(f'{fr.where}: `{name}` is decorated with something that is not understood')
+            params = [a.arg for a in fn.args.args]
+        else:
+            r = self.resolve(name, start_after=after, start_at=at)
+            if r is None:
+                raise AnalysisError(f'{fr.where}: `{short(pf.nsrc(call), 50)}` resolves to no concrete method')
+            owner, fn, m = r
+            kind, _ = decorator_kind(fn)
+            if kind == 'static':
+                raise AnalysisError(f'{fr.where}: call of static method `{name}` is not a recognised shape')
+            params = [a.arg for a in fn.args.args][1:]
         args = list(call.args)
         if at is not None:
             args = args[1:]  # explicit self
         if any(isinstance(a, ast.Starred) for a in args) or any(k.arg is None for k in call.keywords) or len(args) > len(params):
             raise AnalysisError(f'{fr.where}: `{short(pf.nsrc(call), 50)}` passes star arguments')
-        bound: Dict[str, ast.expr] = {}
+        sub = st.fork()
+
+        def val(a: ast.AST) -> object:
+            o = self._obj_of(a, sub)
+            if o is not None:
+                if decorator_kind(fn)[0] == 'memo':
+                    raise AnalysisError(f'{fr.where}: a dict is passed to the memoised `{name}`')
+                return o     # the callee's parameter names the caller's object
+            return self.subst(a, sub, fr)
+        bound: Dict[str, object] = {}
         for p, a in zip(params, args):
-            if self._obj_of(a, st) is not None:
-                raise AnalysisError(f'{fr.where}: a dict is passed to `{name}` (aliasing through parameters is not followed)')
-            bound[p] = self.subst(a, st, fr)
+            bound[p] = val(a)
         for k in call.keywords:
             if k.arg in bound or k.arg not in params:
                 raise AnalysisError(f'{fr.where}: keyword `{k.arg}` of `{name}` does not bind')
-            if self._obj_of(k.value, st) is not None:
-                raise AnalysisError(f'{fr.where}: a dict is passed to `{name}` (aliasing through parameters is not followed)')
-            bound[k.arg] = self.subst(k.value, st, fr)  # type: ignore[index]
+            bound[k.arg] = val(k.value)  # type: ignore[index]
         defaults = dict(zip(params[len(params) - len(fn.args.defaults):], fn.args.defaults))
         for p in params:
             if p not in bound:
                 if p not in defaults:
                     raise AnalysisError(f'{fr.where}: parameter `{p}` of `{name}` is unbound')
+                if isinstance(defaults[p], (ast.Dict, ast.List, ast.Set)):
+                    raise AnalysisError(f'{fr.where}: mutable default of `{p}` in `{name}` (retained between calls; not a recognised shape)')
                 bound[p] = copy.deepcopy(defaults[p])
-        sub = st.fork()
         return self._invoke(owner, fn, m, bound, sub, fr.depth - 1)
 
     # -- statements -----------------------------------------------------------------
@@ -462,17 +578,43 @@ class DictEval:
 
     def _event(self, st: State, fr: _Frame, kind: str, node: ast.AST, **kw) -> None:
         ev = dict(kind=kind, where=fr.where, stmt=short(pf.nsrc(node), 90), file=fr.m.path, line=getattr(node, 'lineno', 0), owner=fr.owner, **kw)
+        if kind == 'self-store':
+            # accumulating = the new value is the old one combined arithmetically with something (x op= e, x = x op e): not idempotent in general
+            acc = isinstance(node, ast.AugAssign) and isinstance(node.target, ast.Attribute)
+            if isinstance(node, ast.Assign) and isinstance(node.value, ast.BinOp) and isinstance(node.value.op, (ast.Add, ast.Sub, ast.Mult, ast.FloorDiv, ast.Div, ast.Pow)):
+                acc = acc or f"self.{kw.get('attr')}" in (pf.nsrc(node.value.left), pf.nsrc(node.value.right))
+            ev['accumulating'] = acc
         st.events.append(ev)
 
-    def _mutation(self, o: Obj, node: ast.AST, st: State, fr: _Frame, what: str) -> None:
-        if o.prov != 'fresh':
-            self._event(st, fr, 'mutates-shared', node, prov=o.prov, why=o.why, what=what)
+    def _mutation(self, o: Obj, node: ast.AST, st: State, fr: _Frame, what: str, key: Optional[str] = None, new: Optional[Sequence[ast.AST]] = None,
+                  mode: str = 'overwrite') -> None:
+        """An in-place change of o.  mode: 'accumulate' (augmented assignment), 'destroy' (pop / del / clear), 'overwrite' (new value(s) given: accumulating
+        iff a new value is computed from the value the same object held under the same key)."""
+        if o.prov == 'fresh':
+            return
+        if mode == 'overwrite':
+            for v in new or []:
+                for n in ast.walk(v):
+                    src = getattr(n, '_c13_src', None)
+                    if src is not None and src[0] == o.oid and (key is None or src[1] == key):
+                        mode = 'accumulate'
+                    if isinstance(n, ast.Subscript) and self._obj_of(n.value, st) is o:
+                        mode = 'accumulate'   # a key of an open dict read back
+        atoms = sorted({a for v in (new or []) for a in key_atoms(v)})
+        self._event(st, fr, 'mutates-shared', node, prov=o.prov, why=o.why, what=what, mode=mode, value_atoms=atoms, memo_atoms=o.memo_atoms)
 
-    def _escape(self, value: ast.AST, target: str, node: ast.AST, st: State, fr: _Frame) -> None:
+    def _escape(self, value: ast.AST, target: str, node: ast.AST, st: State, fr: _Frame, key: Optional[ast.AST] = None) -> None:
         o = self._obj_of(value, st)
-        if o is not None and o.prov == 'fresh':
-            o.prov = 'memo'
-            o.why = f'{fr.owner}.{fr.fn.name} keeps it in `{target}` (`{short(pf.nsrc(node), 60)}`) and hands the same object out again'
+        if o is not None:
+            if o.prov == 'fresh':
+                o.prov = 'memo'
+                o.why = f'{fr.owner}.{fr.fn.name} keeps it in `{target}` (`{short(pf.nsrc(node), 60)}`) and hands the same object out again'
+            k = self.subst(key, st, fr) if key is not None else None
+            if k is not None and o.memo_atoms is None:
+                o.memo_atoms = sorted(set(key_atoms(k)) | ({'self'} if target.startswith('self.') else set()))
+            self._event(st, fr, 'memo-store', node, container=target, key=pf.nsrc(k) if k is not None else None,
+                        key_names=key_atoms(k) if k is not None else [],
+                        deps=sorted({pf.nsrc(n) for v in o.items.values() for n in ast.walk(v) if isinstance(n, ast.Name) or self_attr(n) is not None}))
 
     def _bind_value(self, name: str, value: ast.AST, node: ast.stmt, st: State, fr: _Frame) -> List[State]:
         """name = value"""
@@ -504,9 +646,8 @@ class DictEval:
         if mc is not None:
             outs = []
             for p in self._call(mc, st, fr):
-                s2 = st.fork()
-                s2.events = p.events
-                s2.conds = p.conds
+                s2 = p.state
+                s2.env = s2.stack.pop()
                 s2.env[name] = p.result
                 outs.append(s2)
             return outs
@@ -530,7 +671,7 @@ class DictEval:
                     o = self._as_dict(t.value, st, fr)
                     if o is None:
                         raise AnalysisError(f'{fr.where}: `{short(pf.nsrc(s), 50)}` is not a recognised shape')
-                    self._mutation(o, s, st, fr, 'deletes a key of')
+                    self._mutation(o, s, st, fr, 'deletes a key of', mode='destroy')
                     k = pf.const_str(t.slice)
                     if k is None:
                         o.open = True
@@ -583,7 +724,7 @@ class DictEval:
                     sr = state_read(tg.value, self._locals(st, fr)) or (tg.value.id if isinstance(tg.value, ast.Name) and tg.value.id not in self._locals(st, fr) else None)
                     if sr is not None and not isinstance(st.env.get(getattr(tg.value, 'id', ''), None), ast.AST):
                         # self.cache[key] = v / GLOBAL[key] = v
-                        self._escape(value, sr, s, st, fr)
+                        self._escape(value, sr, s, st, fr, key=tg.slice)
                         if sr.startswith('self.'):
                             self._event(st, fr, 'self-store', s, attr=sr[5:])
                         return [st]
@@ -592,14 +733,15 @@ class DictEval:
                         raise AnalysisError(f'{fr.where}: `{short(pf.nsrc(s), 50)}` updates something that is not a recognised dict')
                     if isinstance(tg.value, ast.Name):
                         st.env[tg.value.id] = o
-                self._mutation(o, s, st, fr, 'overwrites a key of')
                 k = pf.const_str(tg.slice)
                 if self._obj_of(value, st) is not None:
                     raise AnalysisError(f'{fr.where}: nested dict in `{short(pf.nsrc(s), 50)}`')
+                nv = self.subst(value, st, fr)
+                self._mutation(o, s, st, fr, 'overwrites a key of', key=k, new=[nv])
                 if k is None:
                     o.open = True
                 else:
-                    o.items[k] = self.subst(value, st, fr)
+                    o.items[k] = nv
                 return [st]
             raise AnalysisError(f'{fr.where}: `{short(pf.nsrc(s), 50)}` is not a recognised shape')
         if isinstance(s, ast.AugAssign):
@@ -610,7 +752,7 @@ class DictEval:
                     other = self._as_dict(s.value, st, fr) or self.fresh(s.value, st, fr)
                     if other is None:
                         raise AnalysisError(f'{fr.where}: `{short(pf.nsrc(s), 50)}` is not a recognised shape')
-                    self._mutation(cur, s, st, fr, 'updates')
+                    self._mutation(cur, s, st, fr, 'updates', new=list(other.items.values()))
                     cur.items.update({k: copy.deepcopy(v) for k, v in other.items.items()})
                     cur.open = cur.open or other.open
                     return [st]
@@ -634,7 +776,7 @@ class DictEval:
                 if o.prov == 'state' and self_attr(tg.value) is not None:
                     self._event(st, fr, 'self-store', s, attr=self_attr(tg.value))
                     return [st]
-                self._mutation(o, s, st, fr, 'updates in place a value of')
+                self._mutation(o, s, st, fr, 'updates in place a value of', mode='accumulate')
                 k = pf.const_str(tg.slice)
                 if k is None:
                     o.open = True
@@ -652,6 +794,15 @@ class DictEval:
             raise AnalysisError(f'{fr.where}: `{short(pf.nsrc(s), 50)}` is not a recognised shape')
         if isinstance(s, ast.Expr):
             v = s.value
+            mc = self._method_call(v, fr)
+            if mc is not None:
+                # a helper called for its effect (e.g. self._scale(d)): evaluated on the same objects
+                outs = []
+                for p in self._call(mc, st, fr):
+                    s2 = p.state
+                    s2.env = s2.stack.pop()
+                    outs.append(s2)
+                return outs
             if isinstance(v, ast.Call) and isinstance(v.func, ast.Attribute):
                 recv = v.func.value
                 o = self._obj_of(recv, st)
@@ -670,9 +821,23 @@ class DictEval:
                     if isinstance(recv, ast.Name) and not isinstance(st.env.get(recv.id), Obj):
                         st.env[recv.id] = o
                     if meth == 'update':
-                        self._mutation(o, s, st, fr, 'updates')
                         if len(v.args) > 1:
                             raise AnalysisError(f'{fr.where}: `{short(pf.nsrc(s), 50)}`')
+                        newvals: List[Tuple[Optional[str], ast.AST]] = []
+                        for src_e in list(v.args) + [k.value for k in v.keywords if k.arg is None]:
+                            other = self._as_dict(src_e, st, fr, allow_state=False) or self.fresh(src_e, st, fr)
+                            if other is None:
+                                newvals.append((None, self.subst(src_e, st, fr)))
+                            else:
+                                newvals += [(kk, vv) for kk, vv in other.items.items()]
+                        newvals += [(k.arg, self.subst(k.value, st, fr)) for k in v.keywords if k.arg is not None]
+                        acc = False
+                        for kk, vv in newvals:
+                            for n in ast.walk(vv):
+                                src = getattr(n, '_c13_src', None)
+                                if src is not None and src[0] == o.oid and (kk is None or src[1] == kk):
+                                    acc = True
+                        self._mutation(o, s, st, fr, 'updates', new=[vv for _, vv in newvals], mode='accumulate' if acc else 'overwrite')
                         if v.args:
                             other = self._as_dict(v.args[0], st, fr, allow_state=False) or self.fresh(v.args[0], st, fr)
                             if other is None:
@@ -693,7 +858,10 @@ class DictEval:
                                 o.items[k.arg] = self.subst(k.value, st, fr)
                         return [st]
                     if meth in ('pop', 'setdefault', 'clear', 'popitem', '__setitem__', '__delitem__'):
-                        self._mutation(o, s, st, fr, f'calls .{meth}() on')
+                        if meth == 'setdefault':
+                            self._mutation(o, s, st, fr, f'calls .{meth}() on', new=[self.subst(a, st, fr) for a in v.args[1:]])
+                        else:
+                            self._mutation(o, s, st, fr, f'calls .{meth}() on', mode='destroy')
                         k = pf.const_str(v.args[0]) if v.args else None
                         if meth == 'pop' and k is not None:
                             o.items.pop(k, None)
@@ -762,8 +930,8 @@ class DictEval:
         mc = self._method_call(value, fr)
         if mc is not None:
             for p in self._call(mc, st, fr):
-                s2 = st.fork()
-                s2.events, s2.conds = p.events, p.conds
+                s2 = p.state
+                s2.env = s2.stack.pop()
                 fr.finished.append(Path(p.result, s2))
             return
         f = self.fresh(value, st, fr)
@@ -879,3 +1047,109 @@ def expand(fn: pf.FuncDef, e: ast.AST, depth: int = 5) -> ast.expr:
         def visit_Lambda(self, node):
             return node
     return T(depth, set()).visit(copy.deepcopy(e))
+
+
+# --------------------------------------------------------------------------------------
+# accumulate loops as comprehensions
+# --------------------------------------------------------------------------------------
+
+
+def _subst_seq(e: ast.AST, env: Dict[str, ast.expr]) -> ast.expr:
+    class T(ast.NodeTransformer):
+        def __init__(self, hidden: Set[str]):
+            self.hidden = hidden
+
+        def visit_Name(self, node: ast.Name):
+            if isinstance(node.ctx, ast.Load) and node.id in env and node.id not in self.hidden:
+                return copy.deepcopy(env[node.id])
+            return node
+
+        def _comp(self, node):
+            bound = {n.id for g in node.generators for n in ast.walk(g.target) if isinstance(n, ast.Name)}
+            return T(self.hidden | bound).generic_visit(node)
+
+        visit_ListComp = visit_SetComp = visit_DictComp = visit_GeneratorExp = _comp
+
+        def visit_Lambda(self, node):
+            return node
+    return T(set()).visit(copy.deepcopy(e))
+
+
+def _empty_collection(e: ast.AST) -> Optional[str]:
+    if isinstance(e, ast.Dict) and not e.keys:
+        return 'dict'
+    if isinstance(e, ast.List) and not e.elts:
+        return 'list'
+    if isinstance(e, ast.Call) and not e.args and not e.keywords and pf.dotted(e.func) in ('dict', 'list', 'set'):
+        return pf.dotted(e.func)
+    return None
+
+
+def comprehend_loops(stmts: Sequence[ast.stmt]) -> List[ast.stmt]:
+    """Statement list in which every loop of the shape
+           acc = {} | [] | set()           (earlier in the same block, acc untouched in between)
+           for T in IT:
+               x = ...; y = ...; assert ...        (single-target assignments to names, assertions)
+               acc[K] = V   |   acc.append(V)   |   acc.add(V)
+       is replaced by  acc = {K: V for T in IT}  /  [V for T in IT]  /  {V for T in IT}  with the body's locals substituted.  Other loops are kept
+       (the callers then decline).  Blocks nested in if / with statements are rewritten too.  The input is not modified."""
+    out: List[ast.stmt] = []
+    for st in stmts:
+        if isinstance(st, ast.If):
+            st2 = copy.copy(st)
+            st2.body = comprehend_loops(st.body)
+            st2.orelse = comprehend_loops(st.orelse)
+            out.append(st2)
+            continue
+        if isinstance(st, ast.For) and not st.orelse and st.body:
+            env: Dict[str, ast.expr] = {}
+            ok = True
+            for b in st.body[:-1]:
+                if isinstance(b, ast.Assert) or (isinstance(b, ast.Expr) and isinstance(b.value, ast.Constant)):
+                    continue
+                if isinstance(b, ast.Assign) and len(b.targets) == 1 and isinstance(b.targets[0], ast.Name):
+                    env[b.targets[0].id] = _subst_seq(b.value, env)
+                elif isinstance(b, ast.AnnAssign) and isinstance(b.target, ast.Name) and b.value is not None:
+                    env[b.target.id] = _subst_seq(b.value, env)
+                else:
+                    ok = False
+                    break
+            last = st.body[-1]
+            acc = key = val = None
+            if ok and isinstance(last, ast.Assign) and len(last.targets) == 1 and isinstance(last.targets[0], ast.Subscript) and isinstance(last.targets[0].value, ast.Name):
+                acc, key, val = last.targets[0].value.id, _subst_seq(last.targets[0].slice, env), _subst_seq(last.value, env)
+            elif ok and isinstance(last, ast.Expr) and isinstance(last.value, ast.Call) and isinstance(last.value.func, ast.Attribute) and last.value.func.attr in ('append', 'add') \
+                    and isinstance(last.value.func.value, ast.Name) and len(last.value.args) == 1 and not last.value.keywords:
+                acc, val = last.value.func.value.id, _subst_seq(last.value.args[0], env)
+            if acc is not None and acc not in env and not any(isinstance(n, ast.Name) and n.id == acc for n in ast.walk(st.iter)):
+                # the accumulator's latest definition in this block must be an empty collection, untouched since
+                kind = None
+                for prev in reversed(out):
+                    names = {n.id for n in ast.walk(prev) if isinstance(n, ast.Name)}
+                    if isinstance(prev, (ast.Assign, ast.AnnAssign)) and (prev.targets[0] if isinstance(prev, ast.Assign) else prev.target) is not None:
+                        tg = prev.targets[0] if isinstance(prev, ast.Assign) else prev.target
+                        if isinstance(tg, ast.Name) and tg.id == acc and prev.value is not None:
+                            kind = _empty_collection(prev.value)
+                            break
+                    if acc in names:
+                        break
+                gen = ast.comprehension(target=copy.deepcopy(st.target), iter=copy.deepcopy(st.iter), ifs=[], is_async=0)
+                comp: Optional[ast.expr] = None
+                if kind == 'dict' and key is not None:
+                    comp = ast.DictComp(key=key, value=val, generators=[gen])
+                elif kind == 'list' and key is None and isinstance(last, ast.Expr) and last.value.func.attr == 'append':  # type: ignore[attr-defined]
+                    comp = ast.ListComp(elt=val, generators=[gen])
+                elif kind == 'set' and key is None and isinstance(last, ast.Expr) and last.value.func.attr == 'add':  # type: ignore[attr-defined]
+                    comp = ast.SetComp(elt=val, generators=[gen])
+                if comp is not None:
+                    new = ast.Assign(targets=[ast.Name(id=acc, ctx=ast.Store())], value=comp, lineno=st.lineno, col_offset=st.col_offset)
+                    ast.fix_missing_locations(new)
+                    ast.copy_location(new, st)
+                    for n in ast.walk(new):
+                        if not hasattr(n, 'lineno'):
+                            n.lineno = st.lineno  # type: ignore[attr-defined]
+                            n.col_offset = st.col_offset  # type: ignore[attr-defined]
+                    out.append(new)
+                    continue
+        out.append(st)
+    return out
